@@ -159,6 +159,16 @@ func c01Requests(c *core.Ctx, lines []string, specs []c01Spec, n int) (out []*ge
 		default:
 			out = append(out, gen.RandomReq(c.Rng, 0.3))
 		}
+		if q := out[len(out)-1]; !q.HostnameReq && c.Rng.Intn(10) == 0 {
+			// Letter case of the URL (matching works on a lower-cased copy).
+			b := []byte(q.URL)
+			for i := range b {
+				if b[i] >= 'a' && b[i] <= 'z' && c.Rng.Intn(3) == 0 {
+					b[i] -= 32
+				}
+			}
+			q.URL = string(b)
+		}
 	}
 
 	return out
@@ -350,6 +360,23 @@ func c01Run(c *core.Ctx, idx int) {
 		}
 		if len(want) > 0 {
 			c.Event("requests_with_matches", 1)
+		}
+	}
+	// Second use: the same engines (now with warm caches and compiled rules)
+	// asked again, in another order.
+	for _, q := range util.Shuffle(c.Rng, reqs)[:min(8, len(reqs))] {
+		req := q.Build()
+		want, ok := c01Oracle(c, all, req, c01Witness{Lists: vars[0].contents, IDs: vars[0].ids, Request: q})
+		if !ok {
+			continue
+		}
+		for _, v := range vars {
+			var got []*rules.NetworkRule
+			w := c01Witness{Lists: v.contents, IDs: v.ids, Request: q}
+			if c.Guard("NetworkEngine.MatchAll", nil, w, func() { got = v.engine.MatchAll(req) }) {
+				continue
+			}
+			c01Compare(c, "MatchAll(second use)", got, want, w)
 		}
 	}
 	if c.WantSample() && c.Rng.Intn(10) == 0 {
